@@ -30,6 +30,7 @@ RULE += ("  " + 'Also: exact small unsent remainders at close; speed limits (a c
 RULE += ("  " + 'Also (round 6): the silent peer stalls inside login sequences (password login, wrong password then right one, second USER, wrong password only).')
 RULE += ("  " + "Also: reply flood, then QUIT behind a blocked reply writer; a closed stream whose remainder the peer reads before the linger timer fires (nothing may reach the loop's exception handler).")
 RULE += ("  " + 'Also (round 8): data connections made some time (< socket_timeout) before their command, several in a row; idle_timeout only: flood, QUIT, silence.')
+RULE += ("  " + 'Also (round 9): a handler that never returns with 0..400 commands pipelined behind it, then silence (idle_timeout is about the peer, not about handlers); a second transfer command without a data connection while an upload is in progress (its 425 comes wait_future_timeout after the command).')
 ASSUMPTIONS = ["virtual time; commands are delivered in one segment (MSS 1460) so that 'arrival of the command line' is one event",
                "mapping of configured values to channel/direction as documented: idle_timeout = control reads, socket_timeout = "
                "everything else"]
@@ -385,6 +386,85 @@ async def execute(net, hyg, plan):
                                         f"previous transfer): replies {codes}, {len(got or b'')} of {len(want)} bytes"})
                     break
             s.peer.cut("fin")
+        elif kind == "hung_backend":
+            # a handler that never returns (storage call hangs, path_timeout None) with `behind` further commands pipelined behind
+            # it in the same write, then silence: the idle timer is the peer's silence, not the handlers' business
+            w.ctl.delay = lambda op, path, n: 1e6 if path is not None and str(path).endswith("hang") else 0
+            s = Session(net, 2121)
+            await s.run([["connect"], ["login"]])
+            tr = s.peer.conn.server_side
+            s.peer.writer.write(("MLST /hang\r\n" + "".join(plan["cmds"][i % len(plan["cmds"])] + "\r\n" for i in range(plan["behind"]))).encode())
+            await asyncio.sleep(2 * LAT + 0.01)
+            last = tr.last_data_in_at or tr.created_at
+            await asyncio.sleep(cfg["idle"] + 3.0)
+            mon["release_time"] += 1
+            fired = True
+            where = f"cfg {cfg}: 'MLST /hang' (storage call never returns) and {plan['behind']} commands behind it in one write, then silence"
+            if tr.close_called_at is None:
+                viol.append({"key": "not-released:control-read-behind-hung-handler",
+                             "msg": f"{where}: last control bytes arrived at {last - 1000:.4f}, idle_timeout {cfg['idle']}: session still there "
+                                    f"{loop.time() - last:.1f}s later; Server.connections has {len(w.server.connections)} entries"})
+            elif tr.close_called_at > last + cfg["idle"] + EPS:
+                viol.append({"key": "released-late:control-read-behind-hung-handler",
+                             "msg": f"{where}: last control bytes at {last - 1000:.4f}, dropped at {tr.close_called_at - 1000:.4f}"})
+            elif tr.close_called_at < last + cfg["idle"] - EPS - 2 * LAT:
+                viol.append({"key": "released-early:control-read-behind-hung-handler",
+                             "msg": f"{where}: last control bytes at {last - 1000:.4f}, dropped at {tr.close_called_at - 1000:.4f}"})
+            s.peer.cut("fin")
+        elif kind == "second_transfer":
+            # an upload in progress (the peer sends a piece every now and then, inside socket_timeout) and a second transfer command
+            # for which no data connection is ever made: its wait is bounded by wait_future_timeout from the command, whatever the
+            # first transfer does
+            s = Session(net, 2121)
+            await s.run([["connect"], ["login"], ["cmd", "TYPE I"], ["epsv"]])
+            dr, dw = await s.peer.open_data(s.pasv_port)
+            s.peer.send("STOR /slow.bin")
+            r0 = await s.peer.read_reply(wait=10)
+            dw.write(b"a" * 1000)
+            await asyncio.sleep(plan["gap"])
+            marks = {}
+
+            def hook(idx, conn, direction, k_, n):
+                if conn is s.peer.conn and direction == "c2s" and k_ == "DATA":
+                    marks.setdefault("cmd_arrival", loop.time())
+            net.on_event = hook
+            s.peer.send(plan["second"])
+            pieces = 0
+
+            async def feeder():
+                nonlocal pieces
+                while pieces < plan["pieces"]:
+                    await asyncio.sleep(plan["every"])
+                    dw.write(b"b" * 1000)
+                    pieces += 1
+                dw.close()
+            ft = asyncio.ensure_future(feeder())
+            r1 = await s.peer.read_reply(wait=60)
+            r2 = await s.peer.read_reply(wait=60)
+            net.on_event = None
+            await ft
+            r3 = await s.peer.read_reply(wait=60)
+            mon["wait_future_425"] += 1
+            fired = True
+            where = (f"cfg {cfg}: upload in progress ({plan['pieces']} pieces, one every {plan['every']}s), then '{plan['second']}' "
+                     f"without a data connection")
+            codes = [r.code if r not in (None, "EOF") else str(r) for r in (r0, r1, r2, r3)]
+            if codes != ["150", "150", "425", "226"]:
+                viol.append({"key": "second-transfer-wrong-replies", "msg": f"{where}: replies {codes}"})
+            else:
+                expected = marks["cmd_arrival"] + cfg["wft"]
+                got = r2.t - LAT
+                if got > expected + EPS:
+                    viol.append({"key": "425-late:behind-another-transfer",
+                                 "msg": f"{where}: 425 sent at ~{got - 1000:.4f}, bound {expected - 1000:.4f} (command + wait_future_timeout)"})
+                elif got < expected - EPS:
+                    viol.append({"key": "425-early", "msg": f"{where}: 425 sent at ~{got - 1000:.4f}, bound {expected - 1000:.4f}"})
+                if w.tree().get("/slow.bin") != b"a" * 1000 + b"b" * 1000 * plan["pieces"]:
+                    viol.append({"key": "second-transfer-disturbed-first", "msg": f"{where}: stored {len(w.tree().get('/slow.bin') or b'')} bytes"})
+                r4 = await s.peer.cmd("PWD", wait=10)
+                if r4 in (None, "EOF") or r4.code != "257":
+                    viol.append({"key": "session-lost-after-425", "msg": f"{where}: PWD -> {r4}"})
+            s.peer.cut("fin")
         elif kind == "chatty":
             s = Session(net, 2121)
             await s.run([["connect"], ["login"]])
@@ -512,6 +592,16 @@ def gen_cases(tier, seed):
                 cases.append({"kind": "single", "plan": {"kind": "chatty", "cfg": cfg, "delta": delta, "rounds": 6,
                                                          "cmds": ["PWD", "SYST", "TYPE I", "NOOP", "CWD /dir", "MLST /f.bin"], "seed": seed}})
     for cfg in ({"idle": 4, "sock": 3, "wft": 1}, {"idle": 4, "sock": None, "wft": 1}, {"idle": None, "sock": 3, "wft": 1}):
+        if cfg["idle"]:
+            for behind in ((0, 3, 8, 9, 40) if tier == "quick" else (0, 1, 2, 3, 5, 7, 8, 9, 12, 16, 17, 33, 40, 100, 400)):
+                cases.append({"kind": "single", "plan": {"kind": "hung_backend", "cfg": cfg, "behind": behind,
+                                                         "cmds": ["PWD", "NOOP", "SYST", "MLST /f.bin", "CWD /dir"], "seed": seed}})
+        for second in ("RETR /f.bin", "LIST /dir", "STOR /other.bin", "MLSD /", "APPE /f.bin"):
+            for pieces, every in ((6, 1.0), (3, 2.5)) if cfg["sock"] else ((6, 1.0), (2, 9.0)):
+                if cfg["idle"] and pieces * every + 1 > cfg["idle"]:
+                    pieces = 3; every = 1.0
+                cases.append({"kind": "single", "plan": {"kind": "second_transfer", "cfg": cfg, "second": second, "gap": 0.3,
+                                                         "pieces": pieces, "every": every, "seed": seed}})
         if cfg["idle"]:
             for skw in ({"read_speed_limit": 40}, {"read_speed_limit_per_connection": 40}, {"write_speed_limit": 15}):
                 cases.append({"kind": "single", "plan": {"kind": "throttled", "cfg": cfg, "what": "chatty", "rounds": 5, "every": 2.0,
